@@ -86,11 +86,11 @@ type Case struct {
 	Panic  string   `json:"panic,omitempty"`
 	NotImp bool     `json:"notimpl,omitempty"`
 	Post   Scalars  `json:"post"`
-	Probe  []RegVal `json:"probe"`   // pre values of the probe set
-	After  []RegVal `json:"after"`   // post values of the probe set (same keys)
-	NDiff  int      `json:"ndiff"`   // number of 32-bit registers that changed
-	MemAcc int      `json:"memacc"`  // accesses to the storage accessor
-	LDSChg bool     `json:"ldschg"`  // LDS content changed
+	Probe  []RegVal `json:"probe"`  // pre values of the probe set
+	After  []RegVal `json:"after"`  // post values of the probe set (same keys)
+	NDiff  int      `json:"ndiff"`  // number of 32-bit registers that changed
+	MemAcc int      `json:"memacc"` // accesses to the storage accessor
+	LDSChg bool     `json:"ldschg"` // LDS content changed
 	Coq    string   `json:"coq,omitempty"`
 }
 
@@ -761,6 +761,169 @@ func genVOP2(alu string, op int, r *vh.Rng) Case {
 	return g.finish("gen")
 }
 
+// ---------------------------------------------------------------- corner grid
+//
+// Deterministic cross products that are always part of a run (never sampled
+// away): every opcode sees each source in gridV x each other source in gridV x
+// SCC-in in {0,1}; shifts see every amount corner, bit-field operations every
+// offset/width corner (including offset+width >= 32); plain SGPR operands.
+
+func gridVals32(r *vh.Rng) []uint32 {
+	return []uint32{0, 1, 0x7fffffff, 0x80000000, 0xfffffffe, 0xffffffff, uint32(r.U64())}
+}
+
+func gridVals64(r *vh.Rng) []uint64 {
+	return []uint64{0, 1, 0x7fffffffffffffff, 0x8000000000000000, 0xffffffffffffffff, 0xffffffff00000000, r.U64()}
+}
+
+var gridAmounts = []uint32{0, 1, 31, 32, 33, 63, 64, 0xffffffff}
+
+func gridBase(alu string, r *vh.Rng, scc uint8) *Case {
+	c := &Case{Alu: alu, Fill: r.U64(), Class: "grid", Kinds: []string{"sgpr", "sgpr", "d:sgpr"}}
+	c.Pre = Scalars{SCC: scc, VCC: r.U64(), EXEC: r.U64(), M0: uint32(r.U64()), PC: uint64(r.Intn(1<<20)) * 4}
+	return c
+}
+
+func (c *Case) s32(idx int, v uint32) { c.Set = append(c.Set, RegVal{-1, idx, v}) }
+func (c *Case) s64(idx int, v uint64) {
+	c.Set = append(c.Set, RegVal{-1, idx, uint32(v)}, RegVal{-1, idx + 1, uint32(v >> 32)})
+}
+
+func gridCases(alu, fmtn string, op int, r *vh.Rng) []Case {
+	var out []Case
+	add := func(c *Case) { out = append(out, *c) }
+	switch fmtn {
+	case "SOP2":
+		switch {
+		case sop2Is64[op]:
+			bs := gridVals64(r)
+			if sop2Shift[op] {
+				bs = nil
+				for _, a := range gridAmounts {
+					bs = append(bs, uint64(a))
+				}
+			}
+			for _, a := range gridVals64(r) {
+				for _, b := range bs {
+					for scc := uint8(0); scc < 2; scc++ {
+						c := gridBase(alu, r, scc)
+						c.s64(10, a)
+						c.s64(12, b)
+						c.Words = []uint32{encSOP2(op, 14, 10, 12)}
+						add(c)
+					}
+				}
+			}
+		case op == 37 || op == 38: // bit-field extract
+			srcs := []uint32{0, 1, 0x7fffffff, 0x80000000, 0xfffffffe, 0xffffffff, 0xf0, uint32(r.U64())}
+			for _, a := range srcs {
+				for _, off := range []uint32{0, 1, 4, 16, 31} {
+					for _, w := range []uint32{0, 1, 4, 16, 28, 31, 32, 33, 64, 127} {
+						c := gridBase(alu, r, uint8(r.Intn(2)))
+						c.s32(10, a)
+						c.s32(12, off|w<<16|uint32(r.Intn(2))<<8)
+						c.Words = []uint32{encSOP2(op, 14, 10, 12)}
+						add(c)
+					}
+				}
+			}
+		default:
+			bs := gridVals32(r)
+			if sop2Shift[op] {
+				bs = gridAmounts
+			}
+			as := gridVals32(r)
+			if op == 34 { // s_bfm_b32: both operands are bit counts
+				as = gridAmounts
+			}
+			for _, a := range as {
+				for _, b := range bs {
+					for scc := uint8(0); scc < 2; scc++ {
+						c := gridBase(alu, r, scc)
+						c.s32(10, a)
+						c.s32(12, b)
+						c.Words = []uint32{encSOP2(op, 14, 10, 12)}
+						add(c)
+					}
+				}
+			}
+		}
+	case "SOPC":
+		for _, a := range gridVals32(r) {
+			for _, b := range gridVals32(r) {
+				c := gridBase(alu, r, uint8(r.Intn(2)))
+				c.s32(10, a)
+				c.s32(12, b)
+				c.Words = []uint32{encSOPC(op, 10, 12)}
+				add(c)
+			}
+		}
+	case "SOP1":
+		if sop1Src64[op] {
+			for _, a := range gridVals64(r) {
+				for _, e := range gridVals64(r) {
+					for scc := uint8(0); scc < 2; scc++ {
+						c := gridBase(alu, r, scc)
+						c.Pre.EXEC = e
+						c.s64(10, a)
+						c.Words = []uint32{encSOP1(op, 14, 10)}
+						add(c)
+					}
+				}
+			}
+		} else {
+			vals := append(gridVals32(r), 0x80000001, 5, 0xfffffffb, 0x0000ffff, 0xffff0000)
+			for _, a := range vals {
+				for scc := uint8(0); scc < 2; scc++ {
+					c := gridBase(alu, r, scc)
+					c.s32(10, a)
+					c.Words = []uint32{encSOP1(op, 14, 10)}
+					add(c)
+				}
+			}
+		}
+	case "SOPK":
+		for _, k := range []int{0, 1, 5, 0x7fff, 0x8000, 0xfffe, 0xffff} {
+			sext := uint32(int32(int16(uint16(k))))
+			dvals := append(gridVals32(r), sext, uint32(k), uint32(k)|0x10000, sext^0x80000000)
+			for _, d := range dvals {
+				for scc := uint8(0); scc < 2; scc++ {
+					c := gridBase(alu, r, scc)
+					c.s32(14, d)
+					c.Words = []uint32{encSOPK(op, 14, k)}
+					add(c)
+				}
+			}
+		}
+	case "SOPP":
+		for _, k := range []int{0, 1, 3, 0x7fff, 0x8000, 0xffff} {
+			for scc := uint8(0); scc < 2; scc++ {
+				for _, vz := range []bool{true, false} {
+					for _, ez := range []bool{true, false} {
+						c := gridBase(alu, r, scc)
+						if vz {
+							c.Pre.VCC = 0
+						} else if c.Pre.VCC == 0 {
+							c.Pre.VCC = 1
+						}
+						if ez {
+							c.Pre.EXEC = 0
+						} else if c.Pre.EXEC == 0 {
+							c.Pre.EXEC = 1 << 63
+						}
+						if k == 0x8000 {
+							c.Pre.PC = 4 // branch target wraps below zero
+						}
+						c.Words = []uint32{encSOPP(op, k)}
+						add(c)
+					}
+				}
+			}
+		}
+	}
+	return out
+}
+
 // probe: does the ALU implement (fmt, op) at all?
 func implemented(alu, fmtn string, op int) (bool, string) {
 	r := vh.NewRng(12345)
@@ -812,6 +975,7 @@ func main() {
 	seed := flag.Uint64("seed", 1, "seed")
 	per := flag.Int("per", 30, "cases per implemented scalar opcode")
 	perv := flag.Int("perv", 4, "cases per implemented vector opcode")
+	grid := flag.Bool("grid", true, "include the deterministic corner cross products")
 	out := flag.String("out", "", "output JSON file")
 	rep := flag.String("replay", "", "JSON file with cases to replay")
 	flag.Parse()
@@ -851,6 +1015,14 @@ func main() {
 					n := *per
 					if fm.f == "VOP2" {
 						n = *perv
+					}
+					if *grid && fm.f != "VOP2" {
+						for _, c := range gridCases(alu, fm.f, op, rng.Fork()) {
+							wide, kinds, class := c.Wide, c.Kinds, c.Class
+							run(&c)
+							c.Wide, c.Kinds, c.Class = wide, kinds, class
+							res.Cases = append(res.Cases, c)
+						}
 					}
 					for i := 0; i < n; i++ {
 						var c Case
